@@ -280,7 +280,17 @@ def run_svc_job(bld, workdir, job, names):
     """-> (records of the reloaded run, records of the fresh run, pair lines, info)."""
     info = {"steps": 0, "reloads": 0, "ub": set(), "handshake_s": 0.0}
     # ---- the long-running daemon
-    rd = ReloadDaemon(bld, workdir, job["old"])
+    # every third history also loads iauth_class with one `xreply_ok <service>` rule per service name of the universe (the
+    # same rules in every file of the history and in the fresh daemon's file): which service a client's OK is credited to
+    # then shows in the class of the verdict, so a slot table that is wrong in a way the queries do not reveal
+    # (two records of one name, a stale type) still makes the reloaded daemon differ from the fresh one
+    rules = None
+    mods = ("iauth_xquery",)
+    if job.get("xr_rules"):
+        rules = [{"name": "r%d" % k, "xreply_ok": nm, "class": "cls%d" % k} for k, nm in enumerate(sorted(names))] \
+            + [{"name": "rz", "class": "clsz"}]
+        mods = ("iauth_xquery", "iauth_class")
+    rd = ReloadDaemon(bld, workdir, job["old"], modules=mods, rules=rules)
     d = rd.d
     recsL = [D.reset_record(job["old"], True, {"names": names})]
     crashed = d.dead
@@ -295,11 +305,11 @@ def run_svc_job(bld, workdir, job, names):
         if e["e"] in ("RL", "RLF"):
             t0 = time.time()
             if e["e"] == "RL":
-                st, lines, n = rd.reload(rd.conf(e["svcs"], omit_empty=bool(job.get("omit_empty"))))
+                st, lines, n = rd.reload(rd.conf(e["svcs"], rules=rules, omit_empty=bool(job.get("omit_empty"))))
                 cur = e["svcs"]
             else:
                 # a file that must be rejected as a whole: no services at all, then a syntax error
-                st, lines, n = rd.reload(rd.conf([], broken=True))
+                st, lines, n = rd.reload(rd.conf([], rules=rules, broken=True))
             info["handshake_s"] += time.time() - t0
             info["reloads"] += 1
             out = [d.parse_line(l) for l in lines]
@@ -332,7 +342,7 @@ def run_svc_job(bld, workdir, job, names):
     info["crashed_L"] = crashed
     info["san_L"] = san[:600]
     # ---- the fresh daemon on the file in force at the end
-    rf = ReloadDaemon(bld, workdir, cur)
+    rf = ReloadDaemon(bld, workdir, cur, modules=mods, rules=rules)
     f = rf.d
     recsF = [D.reset_record(cur, True, {"names": names})]
     crashedF = f.dead
